@@ -99,7 +99,7 @@ PROPS = {
         "shrink_budget": 3,
     },
     "C07": {
-        "lean_modules": ["Props.Facts07", "Props.Gen07", "Props.GenT07"],
+        "lean_modules": ["Props.Facts07", "Props.Gen07", "Props.GenT07", "Props.Gen07s", "Props.GenT07s"],
         # the model of Update *is* the keymap the property speaks of: a state that differs from
         # it after a key sequence is a key that did not do what the keymap says
         "correspondence_is_failure": {"ui": True},
@@ -371,7 +371,7 @@ PROPS = {
         "assumptions": ["width >= 1 for the width clause"],
     },
     "C16": {
-        "lean_modules": ["Props.C16b", "Props.Gen16", "Props.GenT16", "Props.Gen16v", "Props.GenT16v"],
+        "lean_modules": ["Props.C16b", "Props.Gen16", "Props.GenT16", "Props.Gen16v", "Props.GenT16v", "Props.Gen07s", "Props.GenT07s"],
         "groups": [{"name": "C16", "quick": 6000, "thorough": 200000}, {"name": "C07", "quick": 160, "thorough": 4000, "workers": 16},
                    {"name": "C16x", "quick": 0, "thorough": 7, "workers": 1},
                    # concurrent keys, loads and resizes: every frame as tall as the state says when it is drawn
@@ -422,7 +422,7 @@ MANIFEST_TEXT = {
         "technique": "Lean 4 proof (panic-site theorems over Except-valued model functions) + differential correspondence and crash/hang observation under recover and watchdog",
     },
     "C07": {
-        "text": "Lean model of State.Update (every branch, in order) over the item model, with theorems over all worlds and all byte sequences: Update never panics from any state reachable from Subcommand(open, .) (history non-empty, selection buffer all digits), and each key does what the keymap says (j/k move within bounds, g returns to the opened item, h/l walk the history, space/c/r/a/./:open push exactly one page and drop the forward history, Esc/Backspace cancel, digits select). Tied to ui.go by driving the real ui.State against simulator worlds and comparing mode, buffer, cursor and the visible window after every key; every emitted frame must have the terminal's height and be terminal-safe. Tied a second time by translation: (*State).Update itself - the loading return, Escape, Backspace, the command line with SplitN, ':' and the digits, selection mode with strconv.Atoi and SelectLink, the fall-through into the final switch, one case per key - is translated to Lean on every run (extract/go2lean16.go -> Generated/GoUpdate.lean) with the other methods of *State and of package pub as parameters, and proved equal to Ui.update on every model state and every byte when those parameters are the model's own functions (Props/Gen07.lean); the keymap theorems are carried over to the translated code (Props/GenT07.lean).",
+        "text": "Lean model of State.Update (every branch, in order) over the item model, with theorems over all worlds and all byte sequences: Update never panics from any state reachable from Subcommand(open, .) (history non-empty, selection buffer all digits), and each key does what the keymap says (j/k move within bounds, g returns to the opened item, h/l walk the history, space/c/r/a/./:open push exactly one page and drop the forward history, Esc/Backspace cancel, digits select). Tied to ui.go by driving the real ui.State against simulator worlds and comparing mode, buffer, cursor and the visible window after every key; every emitted frame must have the terminal's height and be terminal-safe. Tied a second time by translation: (*State).Update itself - the loading return, Escape, Backspace, the command line with SplitN, ':' and the digits, selection mode with strconv.Atoi and SelectLink, the fall-through into the final switch, one case per key - is translated to Lean on every run (extract/go2lean16.go -> Generated/GoUpdate.lean) with the other methods of *State and of package pub as parameters, and proved equal to Ui.update on every model state and every byte when those parameters are the model's own functions (Props/Gen07.lean); the keymap theorems are carried over to the translated code (Props/GenT07.lean). Those parameters are translated in turn (extract/go2lean24.go -> Generated/GoSwitch.lean): switchTo (the type switch in its order, the len tests, each &Page{...} literal with its initialisers, Harvest(uint(Context+1), 0) between the two mode writes, s.h.Add), loadSurroundings (each start condition, the flag set before the go statement, each goroutine as its critical section plus the call it makes before it takes the mutex), subcommand / Subcommand (the names compared, the error texts), openUserInput / openFeed with their goroutines, SetWidthHeight; proved equal to Ui.switchTo, Ui.startsUp / startsDown / upDone / downDone and the settled Ui.loadSurroundings, Ui.subcommand, Ui.setWidthHeight on every model state (Props/Gen07s.lean), so that the translated Update over translated actions is Ui.update (update_eq_translated); on the translated code: opening an item or a container never panics and leaves a current page, a loader that finishes - whenever, whatever the world answered - changes only the page it was started for (Props/GenT07s.lean).",
         "design_ref": "DESIGN.md §5 C07",
         "note": "Trusted: Lean kernel; correspondence check (testing); quiescence detection; oracle tables; TLS.",
         "technique": "Lean 4 proof (invariant by induction over the key sequence; keymap corollaries) + differential correspondence of the real UI against the model after every key",
@@ -506,7 +506,7 @@ MANIFEST_TEXT = {
         "technique": "Lean 4 proof (wrap_width + cache invariant by induction over the width sequence) + differential correspondence",
     },
     "C16": {
-        "text": "Lean theorems for all prefix/centred/suffix texts and all heights >= 1: CenterVertically returns exactly h lines, centred as specified; ReplaceLastLine keeps the height for texts of >= 2 lines; SetLength is newline-free. Tied to ansi.go twice: Height, CenterVertically, ReplaceLastLine, SetLength and Squash are translated to Lean on every run (extract/go2lean2.go -> Generated/GoAnsi.lean) and proved equal to the model's functions (Props/Gen16.lean); and by differential correspondence; the height predicate is evaluated on every implementation output. (*State).view of ui/ui.go itself - the walk over the feed, the Loading lines, the footer switch - is translated too (extract/go2lean12.go -> Generated/GoView.lean) and proved equal to Ui.frame applied to the parts and the footer the model computes (Props/Gen16v.lean), so that every frame of the translated view has exactly `height` lines for height >= 2, in every mode, whatever the items render to (Props/GenT16v.lean).",
+        "text": "Lean theorems for all prefix/centred/suffix texts and all heights >= 1: CenterVertically returns exactly h lines, centred as specified; ReplaceLastLine keeps the height for texts of >= 2 lines; SetLength is newline-free. Tied to ansi.go twice: Height, CenterVertically, ReplaceLastLine, SetLength and Squash are translated to Lean on every run (extract/go2lean2.go -> Generated/GoAnsi.lean) and proved equal to the model's functions (Props/Gen16.lean); and by differential correspondence; the height predicate is evaluated on every implementation output. (*State).view of ui/ui.go itself - the walk over the feed, the Loading lines, the footer switch - is translated too (extract/go2lean12.go -> Generated/GoView.lean) and proved equal to Ui.frame applied to the parts and the footer the model computes (Props/Gen16v.lean), so that every frame of the translated view has exactly `height` lines for height >= 2, in every mode, whatever the items render to (Props/GenT16v.lean). SetWidthHeight is translated as well (extract/go2lean24.go -> Generated/GoSwitch.lean) and proved equal to Ui.setWidthHeight (Props/Gen07s.lean): a call with a new size stores it and draws exactly one frame, from the state with the new size, which the translated view makes exactly `height` lines; a call with the old size draws nothing (Props/GenT07s.lean).",
         "design_ref": "DESIGN.md §5 C16",
         "note": "Trusted: Lean kernel; correspondence check (testing); strings.Split/Join/Count/Repeat/LastIndex as modelled on character lists.",
         "technique": "Lean 4 proof (list lemmas on split/join) over a model proved equal to the Lean translation of the layout functions regenerated on every run + differential correspondence",
